@@ -31,7 +31,7 @@ impl %(ty)s {
     fn prepare_simple_expr<W: VWrite>(&self, x: &SimpleExpr, sql: &mut W) ensures final(sql).text() == old(sql).text() + expr_text(*x) { unimplemented!() }
 ''' % {"ty": ty, "mark": mark, "numbered": numbered}, "custom::" + ty, props=P)
         u.arm(QB, "trait QueryBuilder", "prepare_simple_expr_common", "SimpleExpr::CustomWithExpr(expr, values)", "custom_with_expr_arm",
-              "&self, expr: &String, values: &Vec<SimpleExpr>, sql: &mut W", props=P, prefix0="#[verifier::rlimit(50)]\n    ",
+              "&self, expr: &String, values: &Vec<SimpleExpr>, sql: &mut W", props=P + ["C01"], prefix0="#[verifier::rlimit(50)]\n    ",
               key="%s::prepare_simple_expr_common[CustomWithExpr arm]" % ty, vpath="%s::custom_with_expr_arm" % ty,
               rules=[make_r_sub("R-arm", r"fn custom_with_expr_arm\(", "fn custom_with_expr_arm<W: VWrite>("),
                      make_r_sub("R-peek", r"Tokenizer::new\(expr\)\.iter\(\)\.peekable\(\)", "VPeek::new(Tokenizer::new(expr.as_str()).iter())"),
